@@ -111,6 +111,7 @@ class SyntaxParser:
 		"""
 		tokens = self.tokenizer.parse(source)
 		length = len(tokens)
+		self.monitor.peek = 0
 		self.monitor.start(tokens)
 		step, entry = self._match_symbol(tokens, Context.start(), entrypoint)
 		if step.steps != length:
